@@ -168,6 +168,9 @@ def _threading(ctx, P):
         bad = None
         if len(calls) != 1 or any(o.kind != "return" for o in outs):
             bad = "the interpolation wrapper is not called exactly once"
+        elif any(not (isinstance(o.value, Obj) and o.value.name.endswith("-RESULT") and not [e for e in o.value.eff if e[0] not in ("copy", "transpose")]) for o in outs):
+            o = outs[0]
+            bad = f"transform() returns {o.value!r} (operations {[e[0] for e in o.value.eff] if isinstance(o.value, Obj) else '?'}): the interpolated values are altered after the interpolation"
         else:
             kind, a, kw = calls[0]
             if kw.get("suffix") != Sym("U_SUFFIX"):
@@ -243,6 +246,10 @@ def _threading(ctx, P):
             ctx.report("R08.4", deco, "result name", f"the result is named {name_val!r}; expected the input's name followed by the suffix")
         else:
             ctx.ok("R08.4", "result name", "phi.name + suffix")
+        if isinstance(out, Obj):
+            others = [e[0] for e in out.eff if e[0] not in ("rename", "copy", "transpose", "assign_coords", "rename-name")]
+            if out.name != "APPLIED" or others:
+                bad = bad or f"the wrapper returns {out.name!r} after {[e[0] for e in out.eff]}: the kernel's output is altered by {others or 'something else'}"
         if not (isinstance(out, Obj) and out.attrs.get("dims", ())[-1:] == (Sym("lev"),)):
             ctx.report("R08.4", deco, "temporary dimension renamed back", f"the result's dimensions are {getattr(out, 'attrs', {}).get('dims')}; the temporary target dimension must be renamed back to the target's")
         else:
